@@ -238,6 +238,24 @@ CHECKS['C14'] = dict(
     design='§5 C14',
     note=COMMON_NOTE + 'Model-creation SQL is not part of the preview by design of the command and is not compared. SQLite only. The hash seed is the only source of nondeterminism explored (no locale/time).')
 
+CHECKS['C13'] = dict(
+    technique='Lean 4 model of serialize_to_python, of Python\'s reading of the text (precedence parser) and of Django\'s Q/expression operators, theorems and counterexamples over it; translator for the separator table; three-way correspondence (render error, parse tree vs ast.parse, evaluation vs eval) + exec() oracle on real module text',
+    text=('DEvo/Ser/Py.lean: toPy mirrors serialize_to_python for every value kind (literals, containers, enums, '
+          'deconstructed objects, combined expressions, Q trees) including the parentheses it writes and the errors it '
+          'raises; reparse is a shunting-yard reading of the text with Python\'s operator precedences; evalPy models '
+          'Q.__and__/__or__/__xor__/__invert__ (Node.add squashing), Combinable operators and name resolution through '
+          '`models.`. QSerialization.child_separators is extracted from the source on every run. Theorems: see '
+          'DEvo/Props/C13.lean (round trip for the operator-built Q fragment and containers; counterexamples for XOR, '
+          'single Q child, lost connector, precedence, %% and database functions; the placeholder does not load). '
+          'Correspondence on every generated value: error kind of the real serialize_to_python, ast.parse of the real '
+          'text against reparse(toPy v), eval of the real text against evalPy. Oracle: eval(serialize_to_python(v)) == v; '
+          'the module text of EvolveAppTask.get_evolution_content() for hinted evolutions of the C05 pair space and for '
+          'constructed mutations is exec()-uted and the loaded mutations compared with the originals (hint text, simulated '
+          'signature, generated SQL for a sample); hints that need a user value must fail to load. Found F48-F51 (F51, the '
+          'missing `models` import, repaired in /repo).'),
+    design='§5 C13',
+    note=COMMON_NOTE + 'Python\'s parser and Django\'s Q/Combinable operators are modelled primitives, validated by the parse-tree and evaluation correspondences on every run; string literal escaping is delegated to Python\'s repr (trusted).')
+
 NOT_YET = {}
 
 
